@@ -38,10 +38,18 @@ def main():
         scratch = tempfile.mkdtemp(prefix="verif_seed_")
         try:
             sh("git -C /repo ls-files -z ciderpress docs | xargs -0 -I{} cp --parents {} %s/" % scratch, cwd="/repo")
+            # generated (git-ignored) config headers are part of /repo's working tree
+            for gen in ("ciderpress/lib/fft_wrapper/cider_fft_config.h", "ciderpress/lib/pwutil/config.h"):
+                if os.path.exists("/repo/" + gen):
+                    shutil.copy("/repo/" + gen, os.path.join(scratch, gen))
             # working-tree contents (ls-files + cp copies the working tree versions)
             rc, out = sh("git apply --unsafe-paths --directory=%s -p1 %s" % (scratch, os.path.join(d, "patch.diff")), cwd=scratch)
             if rc != 0:
-                rc, out = sh("patch -p1 -d %s < %s" % (scratch, os.path.join(d, "patch.diff")))
+                alt = os.path.join(d, "patch_rebased.diff")
+                if os.path.exists(alt):
+                    rc, out = sh("patch -p1 -d %s < %s" % (scratch, alt))
+                else:
+                    rc, out = sh("patch -p1 -d %s < %s" % (scratch, os.path.join(d, "patch.diff")))
             if rc != 0:
                 summary.append((sid, prop, "PATCH-DOES-NOT-APPLY", out[-300:]))
                 continue
